@@ -63,8 +63,11 @@ def check(ctx: Ctx) -> None:
                 continue
             branch = "admittance" if adm else "impedance"
             env = {"integral": I_, "derivative": D_, "gamma": gamma, "admittance": adm}
-            # auxiliary locals used by the expression (e.g. a sign chosen from the representation)
-            for nm in sorted({x.id for x in ast.walk(c.args[0]) if isinstance(x, ast.Name)} - set(env) - {"pi"}):
+            # auxiliary locals used by the expression (a sign chosen from the representation, hoisted factors and terms),
+            # resolved recursively through their single bindings
+            def bind(nm: str, depth: int = 0) -> None:
+                if nm in env or nm == "pi" or depth > 6:
+                    return
                 b_ = [n for n in walk_ordered(rc.node) if isinstance(n, (ast.Assign, ast.AnnAssign)) and n.value is not None and norm(n.targets[0] if isinstance(n, ast.Assign) else n.target) == nm]
                 if len(b_) != 1:
                     raise AnalysisError(f"_reconstruct: {nm} used in the reconstruction has {len(b_)} bindings")
@@ -72,10 +75,15 @@ def check(ctx: Ctx) -> None:
                 if isinstance(v, ast.IfExp) and norm(v.test) in ("admittance", "not admittance"):
                     take_body = adm if norm(v.test) == "admittance" else not adm
                     v = v.body if take_body else v.orelse
+                for x in ast.walk(v):
+                    if isinstance(x, ast.Name):
+                        bind(x.id, depth + 1)
                 try:
                     env[nm] = ti.ev(v, dict(env))
                 except Unsupported as e:
                     raise AnalysisError(f"_reconstruct: auxiliary {nm} outside the term fragment: {e}")
+            for nm in sorted({x.id for x in ast.walk(c.args[0]) if isinstance(x, ast.Name)}):
+                bind(nm)
             try:
                 t = sp.sympify(ti.ev(c.args[0], env))
             except Unsupported as e:
